@@ -15,11 +15,12 @@ import (
 // C04: SM3 as a streaming hash.Hash driven by an environment that chooses
 // chunking and the operation history; reference = refsm3 op by op.
 
-var hashFaults = []string{"empty-write", "one-byte-write", "write-across-block", "aliased-buffer-overwritten", "sum-mid-stream", "sum-prefix-spare-cap", "sum-prefix-no-cap", "reset-mid-stream", "multi-mib-stream"}
+var hashFaults = []string{"empty-write", "one-byte-write", "write-across-block", "aliased-buffer-overwritten", "sum-mid-stream", "sum-prefix-spare-cap", "sum-prefix-no-cap", "reset-mid-stream", "multi-mib-stream", "interleaved-objects", "oneshot-between-writes"}
 var hashReach = []string{"len-55-56", "len-63-64-65", "len-119-120", "sum-twice-same", "write-after-sum", "hmac-checked", "pbkdf2-checked", "oneshot-checked", "history>=8", "reset-then-reuse"}
 
 func init() {
-	register(Family{Name: "hashstream", Prop: "C04", ID: 401, Weight: 1, FaultNames: hashFaults, ReachNames: hashReach, Run: runHashStream})
+	register(Family{Name: "hashstream", Prop: "C04", ID: 401, Weight: 3, FaultNames: hashFaults, ReachNames: hashReach, Run: runHashStream})
+	register(Family{Name: "hashstream-multi", Prop: "C04", ID: 402, Weight: 1, FaultNames: hashFaults, ReachNames: hashReach, Run: runHashMulti})
 }
 
 func drawMsgLen(c *simkit.Choice) int {
@@ -334,7 +335,7 @@ func hashBig(c *simkit.Choice, r *simkit.Rec) {
 	b := refsm3.New()
 	off := 0
 	for off < L {
-		n := []int{1 << 16, 4096, 1000003, 64, 32 * 1024}[c.Choose(5, simkit.LIO)]
+		n := []int{1 << 16, 4096, 1000003, 64, 32 * 1024, 1<<20 + 1, 2 << 20, L}[c.Choose(8, simkit.LIO)]
 		if n > L-off {
 			n = L - off
 		}
@@ -346,7 +347,84 @@ func hashBig(c *simkit.Choice, r *simkit.Rec) {
 		r.Violate("digest-mismatch", "sm3.Sum(nil)", fmt.Sprintf("%d-byte stream differs from reference", L))
 		return
 	}
+	if c.Bool(1, 2, simkit.LOp) {
+		one := sm3.Sm3Sum(msg)
+		if !bytes.Equal(one, b.Sum(nil)) {
+			r.Violate("oneshot-mismatch", "sm3.Sm3Sum", fmt.Sprintf("one-shot digest of %d bytes differs from reference", L))
+			return
+		}
+	}
 	r.Fault(idx(hashFaults, "multi-mib-stream"))
 	r.Detail = map[string]interface{}{"mode": "big", "len": L}
+	r.Outcome = "ok"
+}
+
+// runHashMulti: several live hash objects (and one-shot calls) interleaved by
+// the environment; each object must depend on its own writes only.
+func runHashMulti(c *simkit.Choice, r *simkit.Rec) {
+	simkit.Guard(r, func() { hashMulti(c, r) })
+	r.Nontrivial = true
+}
+
+func hashMulti(c *simkit.Choice, r *simkit.Rec) {
+	nobj := c.Range(2, 4, simkit.LScen)
+	nops := c.Range(3, 24, simkit.LScen)
+	r.Config = "multi-object"
+	r.Sig(uint64(nobj) | 5<<40)
+	impl := make([]hash.Hash, nobj)
+	ref := make([]hash.Hash, nobj)
+	for i := range impl {
+		impl[i] = sm3.New()
+		ref[i] = refsm3.New()
+	}
+	var ops []string
+	for i := 0; i < nops; i++ {
+		o := c.Choose(nobj, simkit.LOp)
+		op := c.Weighted([]int{6, 3, 1, 2, 1}, simkit.LOp)
+		r.Sig(uint64(o)<<8 | uint64(op))
+		switch op {
+		case 0:
+			n := []int{1, 3, 20, 55, 63, 64, 65, 100, 0}[c.Choose(9, simkit.LIO)]
+			d := drawData(c, n)
+			impl[o].Write(d)
+			ref[o].Write(d)
+			ops = append(ops, fmt.Sprintf("h%d.W%d", o, n))
+			r.Fault(idx(hashFaults, "interleaved-objects"))
+		case 1:
+			got, want := impl[o].Sum(nil), ref[o].Sum(nil)
+			ops = append(ops, fmt.Sprintf("h%d.S", o))
+			if !bytes.Equal(got, want) {
+				r.Violate("digest-mismatch", "sm3.Sum(nil)", fmt.Sprintf("%d live objects, after %v: object %d digest %x, want %x (a hash must depend on its own writes only)", nobj, ops, o, got, want))
+				return
+			}
+		case 2:
+			impl[o].Reset()
+			ref[o].Reset()
+			ops = append(ops, fmt.Sprintf("h%d.R", o))
+		case 3:
+			n := []int{0, 1, 3, 40, 64, 100}[c.Choose(6, simkit.LIO)]
+			d := drawData(c, n)
+			got := sm3.Sm3Sum(d)
+			want := refsm3.Sum(d)
+			ops = append(ops, fmt.Sprintf("Sm3Sum(%d)", n))
+			r.Fault(idx(hashFaults, "oneshot-between-writes"))
+			if !bytes.Equal(got, want[:]) {
+				r.Violate("oneshot-mismatch", "sm3.Sm3Sum", fmt.Sprintf("after %v: one-shot digest of %d bytes %x, want %x", ops, n, got, want))
+				return
+			}
+		case 4:
+			// a fresh object replaces an old one
+			impl[o] = sm3.New()
+			ref[o] = refsm3.New()
+			ops = append(ops, fmt.Sprintf("h%d=New", o))
+		}
+	}
+	for o := range impl {
+		if !bytes.Equal(impl[o].Sum(nil), ref[o].Sum(nil)) {
+			r.Violate("digest-mismatch", "sm3.Sum(nil)", fmt.Sprintf("%d live objects, after %v: final digest of object %d differs from the reference", nobj, ops, o))
+			return
+		}
+	}
+	r.Detail = map[string]interface{}{"mode": "multi-object", "objects": nobj, "ops": ops}
 	r.Outcome = "ok"
 }
